@@ -8,7 +8,7 @@ import json
 import random
 
 from vf import monitors, norm
-from vf.common import exps_workload, std_shards, shard_seeds, gsig, try_compile, prog_from_json
+from vf.common import exps_workload, std_shards, shard_seeds, gsig, try_compile, prog_from_json, with_repeated_literals
 from vf.esast import print_program, Style, Printer, render
 
 LEVEL = "exploration"
@@ -23,6 +23,9 @@ ASSUMPTIONS = [
 def shards(tier, seed):
     out = std_shards("C16", tier, seed, 70, 900)
     # re-spellings inside imported files, compiled in this process and in a child whose locale encoding is not UTF-8
+    # programs rich in position marks in which the same mark is written at several places (on one line in some layouts)
+    for s in shard_seeds(seed, 2, "C16r"):
+        out.append({"kind": "random", "seed": s, "n": 40 if tier == "quick" else 600, "depth": 2, "cfg": {"pos_p": 0.4}, "repeat_marks": True})
     for s in shard_seeds(seed, 2, "C16i"):
         out.append({"kind": "imported", "seed": s, "n": 18 if tier == "quick" else 300})
     return out
@@ -41,11 +44,11 @@ def check_program(acc, prog, rnd, k, name, sample=False):
         return
     k0 = result_key(c0)
     acc.count("programs")
-    for i in range(k):
+    for i in range(k + 1):
         sseed, lseed = rnd.randrange(1 << 40), rnd.randrange(1 << 40)
-        mode = i % 3
-        style = Style(random.Random(sseed), 0.45) if mode != 1 else None
-        layout = random.Random(lseed) if mode != 2 else None
+        mode = i % 3 if i < k else 3  # 3: the whole program on one line
+        style = Style(random.Random(sseed), 0.45) if mode not in (1, 3) else None
+        layout = "dense" if mode == 3 else random.Random(lseed) if mode != 2 else None
         r = print_program(prog, style, layout)
         inp = {"name": name, "prog": prog, "style_seed": sseed, "layout_seed": lseed, "mode": mode, "original": base.text,
                "respelling": r.text}
@@ -171,6 +174,10 @@ def run_shard(shard, acc):
     rnd = random.Random(shard["seed"] ^ 0x16)
     k = 4 if shard.get("n", 0) < 200 else 12
     for i, (name, prog) in enumerate(exps_workload(shard)):
+        if shard.get("repeat_marks"):
+            prog = with_repeated_literals(prog, rnd)
+            name += ":repeated-marks"
+            acc.count("programs_with_repeated_marks")
         check_program(acc, prog, rnd, k if shard["kind"] != "catalogue" else 2, name, sample=(i == 0))
 
 
@@ -196,8 +203,8 @@ def replay(inp, acc):
     prog = prog_from_json(inp["prog"])
     base = print_program(prog)
     c0 = try_compile(base.text, acc)
-    style = Style(random.Random(inp["style_seed"]), 0.45) if inp["mode"] != 1 else None
-    layout = random.Random(inp["layout_seed"]) if inp["mode"] != 2 else None
+    style = Style(random.Random(inp["style_seed"]), 0.45) if inp["mode"] not in (1, 3) else None
+    layout = "dense" if inp["mode"] == 3 else random.Random(inp["layout_seed"]) if inp["mode"] != 2 else None
     r = print_program(prog, style, layout)
     try:
         c1 = norm.compile_exps(r.text)
